@@ -2,9 +2,11 @@ INIT Init
 NEXT NextAll
 CONSTANTS
   Shapes <- MCShapesQ
-  Gs = {0, 1, 2, 4}
+  Gs = {0, 1, 2, 3, 4}
   Q = 4
   PDen = 4
+  Shifts <- MCShifts
 INVARIANT DumpCase
+INVARIANT ShiftCovariant
 VIEW core
 CHECK_DEADLOCK FALSE
